@@ -209,49 +209,55 @@ theorem inscriptionInfo_fields (st : State) (i : InscriptionId) (node : Option N
 
 /-! ### listings are pages of the stored lists -/
 
-theorem childrenPage_spec (st : State) (id : InscriptionId) (page : Nat) (p : Page InscriptionId)
-    (h : childrenPage st id page = .ok p) :
-    ∃ e, entryOfId st id = some e ∧ page * PAGE < USIZE ∧
+theorem childrenPage_spec (fx : Fixes) (st : State) (id : InscriptionId) (page : Nat) (p : Page InscriptionId)
+    (h : childrenPage fx st id page = .ok p) :
+    ∃ e, entryOfId st id = some e ∧ ((childrenOf st e.seq).length < USIZE →
       idsOfSeqs st (pageOf (childrenOf st e.seq) PAGE page).1 = some p.items ∧
-      p.more = (pageOf (childrenOf st e.seq) PAGE page).2 ∧ p.page = page := by
+      p.more = (pageOf (childrenOf st e.seq) PAGE page).2 ∧ p.page = page) := by
   unfold childrenPage at h
   cases he : entryOfId st id with
   | none => simp [he] at h
   | some e =>
     simp only [he] at h
-    by_cases hp : page * PAGE < USIZE
-    · rw [pageChecked_ok _ _ _ hp] at h
-      simp only at h
+    refine ⟨e, rfl, fun hl => ?_⟩
+    cases hk : pageKids fx.pageOverflow (childrenOf st e.seq) PAGE page with
+    | panic s => simp [hk] at h
+    | err s => simp [hk] at h
+    | ok r =>
+      have hr := pageKids_ok _ _ _ _ hl r hk
+      subst hr
+      simp only [hk] at h
       split at h
       · rename_i ids hids
         cases h
-        exact ⟨e, rfl, hp, hids, rfl, rfl⟩
+        exact ⟨hids, rfl, rfl⟩
       · cases h
-    · rw [pageChecked_panic _ _ _ (Nat.le_of_not_lt hp)] at h
-      cases h
 
-theorem parentsPage_spec (st : State) (id : InscriptionId) (page : Nat) (p : Page InscriptionId)
-    (h : parentsPage st id page = .ok p) :
-    ∃ e, entryOfId st id = some e ∧ page * PAGE < USIZE ∧
+theorem parentsPage_spec (fx : Fixes) (st : State) (id : InscriptionId) (page : Nat) (p : Page InscriptionId)
+    (h : parentsPage fx st id page = .ok p) :
+    ∃ e, entryOfId st id = some e ∧ (e.parents.length < USIZE →
       idsOfSeqs st (pageOf e.parents PAGE page).1 = some p.items ∧
-      p.more = (pageOf e.parents PAGE page).2 ∧ p.page = page := by
+      p.more = (pageOf e.parents PAGE page).2 ∧ p.page = page) := by
   unfold parentsPage at h
   cases he : entryOfId st id with
   | none => simp [he] at h
   | some e =>
     simp only [he] at h
-    by_cases hp : page * PAGE < USIZE
-    · rw [pageChecked_ok _ _ _ hp] at h
-      simp only at h
+    refine ⟨e, rfl, fun hl => ?_⟩
+    cases hk : pageKids fx.pageOverflow e.parents PAGE page with
+    | panic s => simp [hk] at h
+    | err s => simp [hk] at h
+    | ok r =>
+      have hr := pageKids_ok _ _ _ _ hl r hk
+      subst hr
+      simp only [hk] at h
       split at h
       · rename_i ids hids
         split at h
         · cases h
-          exact ⟨e, rfl, hp, hids, rfl, rfl⟩
+          exact ⟨hids, rfl, rfl⟩
         · cases h
       · cases h
-    · rw [pageChecked_panic _ _ _ (Nat.le_of_not_lt hp)] at h
-      cases h
 
 theorem satPage_spec (cfg : Cfg) (st : State) (sat page : Nat) (p : Page InscriptionId)
     (hl : (seqsOfSat st sat).length < USIZE) (h : satPage cfg st sat page = .ok p) :
